@@ -271,18 +271,17 @@ def _bytecode_fact(facts):
             if j > 0 and any(x.opname == "COMPARE_OP" for x in ins[j:k]):
                 ok_slot = True
     ok_hdr = False
-    for k, i in enumerate(ins):
-        if i.opname == "LOAD_ATTR" and i.argval == "stacktop":
-            j = k
-            seen_owner = False
-            while j < len(ins) and not (ins[j].opname == "LOAD_ATTR" and ins[j].argval == "f_lasti"):
-                if switchy(ins[j].opname):
-                    return
-                if ins[j].opname == "LOAD_ATTR" and ins[j].argval == "owner":
-                    seen_owner = True
-                j += 1
-            if j < len(ins) and seen_owner:
-                ok_hdr = True
+    firsts = [k for k, i in enumerate(ins) if i.opname == "LOAD_ATTR" and i.argval in ("stacktop", "owner")]
+    if len(firsts) == 2:
+        j = firsts[0]
+        seen = set()
+        while j < len(ins) and not (ins[j].opname == "LOAD_ATTR" and ins[j].argval == "f_lasti"):
+            if switchy(ins[j].opname):
+                return
+            if ins[j].opname == "LOAD_ATTR" and ins[j].argval in ("stacktop", "owner"):
+                seen.add(ins[j].argval)
+            j += 1
+        ok_hdr = j < len(ins) and seen == {"stacktop", "owner"}
     # capture (`.contents`) ... first f_lasti load: no switch point either
     ok_cap = False
     for k, i in enumerate(ins):
